@@ -88,6 +88,11 @@ fn find_match(name: &String, rule_tokens: &Vec<Rc<TokenInfo>>, tokinizer: &Tokin
     let mut target_token_index = 0;
     let mut start_token_index  = 0;
     let mut fields             = BTreeMap::new();
+
+    /* A pattern without any token (add_rule accepts an empty text) matches nothing */
+    if total_rule_token == 0 {
+        return (1, 0, 0, 0, fields);
+    }
     
     while let Some(token) = tokinizer.token_infos.get(target_token_index) {
         target_token_index += 1;
